@@ -16,12 +16,112 @@ from ..pathrules import assigns_attr, calls_named, loop_heads
 from ..src import Repo, call_name, receiver, walk_no_nested
 
 
+def _self_attrs(fi, pred):
+    return {n.attr for n in ast.walk(fi.node) if isinstance(n, ast.Attribute) and isinstance(n.value, ast.Name) and n.value.id == "self" and pred(n)}
+
+
+def found_flag_attr(repo):
+    """by role: the attribute initialised to False in __init__, set to True by the reply callback, read by discover()"""
+    init = repo.method("GeckoAsyncLocator", "__init__")
+    cb = repo.method("GeckoAsyncLocator", "_async_on_discovered")
+    d = repo.method("GeckoAsyncLocator", "discover")
+
+    def assigned(fi, val):
+        out = set()
+        for n in ast.walk(fi.node):
+            if isinstance(n, (ast.Assign, ast.AnnAssign)) and isinstance(getattr(n, "value", None), ast.Constant) and n.value.value is val:
+                for t in (n.targets if isinstance(n, ast.Assign) else [n.target]):
+                    if isinstance(t, ast.Attribute) and isinstance(t.value, ast.Name) and t.value.id == "self":
+                        out.add(t.attr)
+        return out
+    both = assigned(init, False) & assigned(cb, True)
+    cands = both & _self_attrs(d, lambda n: isinstance(n.ctx, ast.Load))
+    if not cands:
+        cands = both  # discover() may read it through a helper
+    if len(cands) != 1:
+        raise AnalysisError(f"GeckoAsyncLocator: cannot identify the found flag by role (candidates {sorted(cands)})")
+    return cands.pop()
+
+
+def start_stamp_attr(repo):
+    """by role: the attribute discover() stamps with time.monotonic() and `age` reads"""
+    d = repo.method("GeckoAsyncLocator", "discover")
+    age = repo.method("GeckoAsyncLocator", "age")
+    st = set()
+    for n in ast.walk(d.node):
+        if isinstance(n, ast.Assign) and "monotonic" in ast.unparse(n.value):
+            for t in n.targets:
+                if isinstance(t, ast.Attribute) and isinstance(t.value, ast.Name) and t.value.id == "self":
+                    st.add(t.attr)
+    cands = st & _self_attrs(age, lambda n: isinstance(n.ctx, ast.Load))
+    if len(cands) != 1:
+        raise AnalysisError(f"GeckoAsyncLocator: cannot identify the start stamp by role (candidates {sorted(cands)})")
+    return cands.pop()
+
+
+def wait_loop_decisions(ctx, repo, d, hd):
+    """R4 decision table: one pass of discover()'s wait loop is interpreted for all 16 valuations of
+    (age < timeout, had enough time, some spa listed, requested spa found); it must go on waiting exactly
+    when  age < timeout  and not (enough time and some spa)  and not found."""
+    from ..absint import Interp, Obj, Opaque, PyRaise, Undecided
+
+    class _Yielded(Exception):
+        pass
+    FLAG = found_flag_attr(repo)
+    loop = hd.loop_stmt if hasattr(hd, "loop_stmt") else None
+    if loop is None:
+        for n in ast.walk(d.node):
+            if isinstance(n, ast.While) and n.test is hd.ast:
+                loop = n
+    if loop is None:
+        raise AnalysisError(f"{d.qual}: wait loop statement not found")
+    spas_attr = next((ast.unparse(c.func.value).split(".")[-1] for n in ast.walk(repo.method("GeckoAsyncLocator", "_async_on_discovered").node)
+                      if isinstance(n, ast.Call) and isinstance(n.func, ast.Attribute) and n.func.attr == "append" and n.args and isinstance(n.args[0], ast.Name)
+                      for c in [n] if "dentifier" not in ast.unparse(n.func.value)), None)
+    if spas_attr is None:
+        raise AnalysisError("GeckoAsyncLocator: result list not identified by role")
+    n_ok = 0
+    for in_time in (True, False):
+        for enough in (True, False):
+            for some in (True, False):
+                for found in (True, False):
+                    interp = Interp(repo)
+                    me = Obj(d.cls, {FLAG: found, spas_attr: [Opaque("descriptor")] if some else []})
+
+                    def ahook(it, base, attr, me=me, in_time=in_time, enough=enough):
+                        if base is me and attr == "age":
+                            return 0.0 if in_time else 1e12
+                        if base is me and attr == "has_had_enough_time":
+                            return enough
+                        return NotImplemented
+
+                    def chook(it, node, callee, args, kwargs):
+                        if getattr(callee, "name", "") in ("asyncio.sleep",) or (isinstance(getattr(node, "func", None), ast.Attribute) and node.func.attr in ("sleep", "config_sleep")):
+                            raise _Yielded()
+                        return NotImplemented
+                    interp.attr_hook, interp.call_hook = ahook, chook
+                    try:
+                        interp.exec(loop, {"self": me, "__class__": d.cls, "__mod__": d.mod})
+                        went_on = False
+                    except _Yielded:
+                        went_on = True
+                    except (PyRaise, Undecided) as ex:
+                        raise AnalysisError(f"{d.qual}: wait loop cannot be interpreted: {ex}")
+                    want = in_time and not (enough and some) and not found
+                    n_ok += 1
+                    ctx.ob("R4", f"{d.qual}::wait-loop::in_time={in_time}::enough={enough}::some={some}::found={found}", went_on == want,
+                           f"{d.qual}: with age {'<' if in_time else '>='} timeout, initial wait {'over' if enough else 'not over'}, {'some' if some else 'no'} spa listed, requested spa {'found' if found else 'not found'} "
+                           f"the wait loop {'keeps waiting' if went_on else 'returns'}; the statement requires it to {'keep waiting' if want else 'return'}",
+                           loc(d, hd.ast), sample={"rule": "R4", "in_time": in_time, "enough": enough, "some": some, "found": found, "waits": went_on} if n_ok % 5 == 1 else None)
+    ctx.floor("R4", "wait-loop valuations", n_ok, 16)
+
+
 def check(ctx):
     repo = Repo()
     ctx.rule("R1", "de-dup + paired appends: membership of the identifier in the seen-list is tested with an early return dominating both appends; identifier and descriptor are appended on exactly the same paths, once")
     ctx.rule("R2", "filter: when an identifier is requested, inequality with the decoded reply identifier returns before any append")
     ctx.rule("R3", "found flag: set only after the append and only when an address or identifier was requested")
-    ctx.rule("R4", "termination: loop condition age < DISCOVERY_TIMEOUT; break on (had-enough-time and non-empty) and on the found flag; every iteration suspends; age measured from the start stamp")
+    ctx.rule("R4", "termination: decision table of the wait loop over (age < DISCOVERY_TIMEOUT, had enough time, some spa listed, requested spa found) by interpretation - it keeps waiting exactly when in time, not (enough time and some spa) and not found; every iteration suspends; age measured from the start stamp")
     ctx.rule("R5", "clean-up: transport closed and LOC tasks cancelled on every exit of discover(), cancellation included")
     ctx.rule("R6", "descriptor keeps (identifier, name, sender) unchanged; HELLO reply parsing is C04.R6")
 
@@ -63,7 +163,8 @@ def check(ctx):
             ctx.ob("R2", f"{fi.qual}::{nm}-append::filtered", ok,
                    f"{fi.qual}: a reply whose (decoded) identifier differs from the requested one can still reach the {nm} append", loc(fi, N.ast))
         # R3 found flag
-        flags = [n for n in g.stmt_nodes() if assigns_attr(n, "self._has_found_spa")]
+        FLAG = found_flag_attr(repo)
+        flags = [n for n in g.stmt_nodes() if assigns_attr(n, f"self.{FLAG}")]
         ctx.ob("R3", f"{fi.qual}::flag-sites", len(flags) == 1, f"{fi.qual}: found flag written at {len(flags)} sites", fi.loc)
         for Fn in flags:
             ok = g.dom(D, Fn) and repo.try_fold(Fn.ast.value) is True
@@ -99,31 +200,17 @@ def check(ctx):
     ctx.ob("R4", f"{d.qual}::one-loop", len(heads) == 1, f"{d.qual}: expected one wait loop", d.loc)
     if len(heads) == 1:
         hd = heads[0]
-        t = hd.text()
-        ctx.ob("R4", f"{d.qual}::bounded-by-timeout", t.replace(" ", "") == "self.age<GeckoConfig.DISCOVERY_TIMEOUT_IN_SECONDS",
-               f"{d.qual}: loop condition `{t}` is not `self.age < GeckoConfig.DISCOVERY_TIMEOUT_IN_SECONDS`: discovery may not end within the timeout", loc(d, hd.ast),
-               sample={"rule": "R4", "loop": t})
         body = gd.loop_body(hd)
         avoid = [x for x in body if x.suspends]
         ctx.ob("R4", f"{d.qual}::yields", hd not in gd.reach_from(hd, avoid=avoid), f"{d.qual}: an iteration without a suspension point starves the reply consumer", d.loc)
-        brks = [n for n in gd.stmt_nodes() if isinstance(n.ast, ast.Break)]
-        kinds = set()
-        for b in brks:
-            facts = gd.guard_atoms(b, entry=hd, cut_back=True)
-            if ("self.has_had_enough_time", True) in facts and any("len(self._spas)" in t2 and not p for t2, p in facts):
-                kinds.add("enough-time-and-found-some")
-            elif ("self._has_found_spa", True) in facts:
-                kinds.add("requested-spa-found")
-            else:
-                ctx.ob("R4", f"{d.qual}::break-L{len(kinds)}::justified", False, f"{d.qual}: break under {sorted(facts)} is neither of the two stated early exits", loc(d, b.ast))
-        ctx.ob("R4", f"{d.qual}::early-exit::enough-time-and-found-some", "enough-time-and-found-some" in kinds, f"{d.qual}: does not return after the initial wait once any spa has answered", d.loc)
-        ctx.ob("R4", f"{d.qual}::early-exit::requested-spa-found", "requested-spa-found" in kinds, f"{d.qual}: does not return as soon as the requested spa has answered", d.loc)
-        st = [n for n in gd.stmt_nodes() if assigns_attr(n, "self._started") and "monotonic" in n.text()]
+        wait_loop_decisions(ctx, repo, d, hd)
+        STAMP = start_stamp_attr(repo)
+        st = [n for n in gd.stmt_nodes() if assigns_attr(n, f"self.{STAMP}") and "monotonic" in n.text()]
         ctx.ob("R4", f"{d.qual}::start-stamp", bool(st) and all(gd.dom(s, hd) for s in st), f"{d.qual}: start time not stamped before the loop", d.loc)
         sp = [n for n in gd.stmt_nodes() if assigns_attr(n, "self._spas") and isinstance(n.ast.value, ast.List)]
         ctx.ob("R4", f"{d.qual}::fresh-list", bool(sp) and all(gd.dom(s, hd) for s in sp), f"{d.qual}: result list not initialised before the loop", d.loc)
     age = repo.own_method("GeckoAsyncLocator", "age")
-    ctx.ob("R4", "age::monotonic-minus-start", "time.monotonic() - self._started" in ast.unparse(age.node), "age is not now - start", age.loc)
+    ctx.ob("R4", "age::monotonic-minus-start", f"time.monotonic() - self.{start_stamp_attr(repo)}" in ast.unparse(age.node), "age is not now - start", age.loc)
     het = repo.own_method("GeckoAsyncLocator", "has_had_enough_time")
     ctx.ob("R4", "has_had_enough_time", "self.age > GeckoConfig.DISCOVERY_INITIAL_TIMEOUT_IN_SECONDS" in ast.unparse(het.node), "initial wait is not DISCOVERY_INITIAL_TIMEOUT", het.loc)
     # consumer wired
